@@ -294,9 +294,35 @@ def presentation(rng, items, idx):
     return lines, eol, preseed
 
 
+def many_program(rng, n=1200):
+    """over a thousand labels, each in front of an item that shrinks or not, transfers criss-crossing between them"""
+    items = []
+    for k in range(n):
+        items.append({'k': 'label', 'name': 'M%d' % k})
+        c = rng.random()
+        if c < 0.45:
+            items.append({'k': 'inst', 'm': 'addi', 'ops': [{'r': 8}, {'r': 8}, {'i': 1}]})
+        elif c < 0.65:
+            items.append({'k': 'pseudo', 'm': 'li', 'ops': [{'r': rng.choice([5, 9, 15])}, {'i': rng.choice([1, -7, 2047, 0x12345])}]})
+        elif c < 0.8:
+            t = {'t': 'M%d' % rng.randrange(n)}
+            items.append(rng.choice([{'k': 'pseudo', 'm': 'j', 'ops': [t]}, {'k': 'inst', 'm': 'jal', 'ops': [{'r': 1}, t]}, {'k': 'pseudo', 'm': 'call', 'ops': [t]},
+                                     {'k': 'pseudo', 'm': 'tail', 'ops': [t]}]))
+        elif c < 0.85:
+            items.append({'k': 'align', 'n': rng.choice([4, 8])})
+        else:
+            t = {'t': 'M%d' % max(0, min(n - 1, k + rng.randrange(-20, 21)))}
+            items.append(rng.choice([{'k': 'pseudo', 'm': 'beqz', 'ops': [{'r': rng.choice([8, 5])}, t]}, {'k': 'inst', 'm': 'bne', 'ops': [{'r': 9}, {'r': 0}, t]}]))
+    items.append({'k': 'pseudo', 'm': 'ret', 'ops': []})
+    return items
+
+
 def run_random(asm, acc, seed, idx, trace=False):
     rng = random.Random('c03-rand-%d-%d' % (seed, idx))
     items = far_family(rng) if idx % 8 == 5 else randprog.gen(rng, CFG)
+    if idx % 400 == 399:
+        items = many_program(rng)
+        acc['ctr']['programs_with_over_a_thousand_labels'] += 1
     lines, eol, preseed = presentation(rng, items, idx)
     core.see(acc, 'presentations', ['canonical', 'syntax-variants', 'reused-label-table'][min(idx % 6, 3) if idx % 6 < 3 else 0])
     for compress in (False, True):
